@@ -155,6 +155,7 @@ def _case_h2(rng, tier, n):
         sid = 1 + 2 * i
         req = G.gen_request(rng, tag, "2", tier, body_sizes=[0, 1, 2, 17, 1024, 9000] if small else None)
         req["sid"] = sid
+        req["h2_host_too"] = rng.random() < 0.1
         if names_case:
             req["authority"] = names_case(req["authority"])
         req["complete"] = True
@@ -177,7 +178,7 @@ def _case_h2(rng, tier, n):
         for req in reqs:
             target = req["path"] + (b"?" + req["query"] if req["query"] is not None else b"")
             hdrs = [(b":method", req["method"].encode()), (b":scheme", b"https" if tls else b"http"),
-                    (b":path", target), (b":authority", req["authority"])] + list(req["headers"])
+                    (b":path", target), (b":authority", req["authority"])] + ([(b"host", req["authority"])] if req.get("h2_host_too") else []) + list(req["headers"])
             blob += fb.headers(req["sid"], hdrs, end_stream=(len(req["body"]) == 0))
             q, off = [], 0
             for k in req["frame_sizes"]:
